@@ -306,7 +306,16 @@ def _manual_session(self, obj, a):
     matplotlib.use("Agg")
     import matplotlib.pyplot as plt
     import hvsrpy.window_rejection as wr
-    from hvsrpy.interact import _relative_to_absolute
+    if not hasattr(wr, "ginput_session") or not hasattr(wr, "manual_window_rejection"):
+        # the interactive session is driven through the module-level name the function calls for mouse input; where that seam
+        # is gone the action cannot be bound (the direct mask assignment of ManualReject still is)
+        raise Unbindable("hvsrpy.window_rejection has no ginput_session seam to script the analyst's clicks")
+
+    def _relative_to_absolute(rel, lim, scale):      # axes fraction -> data coordinate (the 'continue' box sits at 6 % / 94 %)
+        lo, hi = lim
+        if scale == "log":
+            return float(10 ** (np.log10(lo) + rel * (np.log10(hi) - np.log10(lo))))
+        return float(lo + rel * (hi - lo))
     inst = self.inst
     fl, fh, al, ah = a["b"]
     amp = (lambda half: (half / 2.0) * inst.ascale) if inst.aenc == "N" else (lambda half: float(np.exp((half / 2.0) / inst.q)))
@@ -335,6 +344,10 @@ def _manual_session(self, obj, a):
 
 
 Real.manual_session = _manual_session
+
+
+class Unbindable(Exception):
+    """an action of the specification that cannot be driven on this tree (a private seam the harness scripts is gone)"""
 
 
 DEV_CAP = 3000       # deviating steps judged per replayer (400 deviating steps cost TLC about 8 s)
@@ -402,6 +415,9 @@ class Replayer:
                 o2 = copy.deepcopy(obj)
                 try:
                     ret = real.apply(o2, a)
+                except Unbindable:
+                    self.stats["unbindable"] = self.stats.get("unbindable", 0) + 1
+                    continue
                 except Exception as e:       # the specification says this step is defined
                     self.stats["exceptions"] += 1
                     if a["op"] == "Fdwra" and isinstance(e, (ValueError, ZeroDivisionError, FloatingPointError)):
